@@ -240,13 +240,14 @@ class Controller:
     def __init__(self, targets: list[str], split_lines: Optional[set[tuple[str, int]]] = None,
                  max_steps: int = 4000, clock0: float = 1000.0, watchdog_s: float = 60.0,
                  on_step: Optional[Callable[["Controller", Step], None]] = None,
-                 skip_funcs: Optional[set[str]] = None):
+                 skip_funcs: Optional[set[str]] = None, only_funcs: Optional[set[str]] = None):
         self.targets = {os.path.realpath(t) for t in targets}
         self._target_cache: dict[str, bool] = {}
         self.split_lines = {(os.path.realpath(f), ln) for f, ln in (split_lines or set())}
         self._split_files = {f for f, _ in self.split_lines}
         self._split_cache: dict[Any, dict[int, str]] = {}
         self.skip_funcs = set(skip_funcs or ())   # functions of the target files that run atomically
+        self.only_funcs = set(only_funcs) if only_funcs else None   # if given: all others run atomically
         self.max_steps = max_steps
         self.now = clock0
         self.watchdog_s = watchdog_s
@@ -297,7 +298,8 @@ class Controller:
         if event != "call":
             return None
         code = frame.f_code
-        if not self._is_target(code.co_filename) or code.co_name in self.skip_funcs:
+        if not self._is_target(code.co_filename) or code.co_name in self.skip_funcs or \
+                (self.only_funcs is not None and code.co_name not in self.only_funcs):
             return None
         if self._splits(code):
             frame.f_trace_opcodes = True
@@ -630,10 +632,12 @@ class _ShimThreading:
                 if ts is None:
                     raise ControllerError("uncontrolled thread would block joining a controlled thread")
                 tgt = self._ts
+                caller = sys._getframe(1).f_code.co_name
                 if timeout is None:
-                    c._yield(ts, ("join", tgt.name), pred=lambda: tgt.status == "finished")
+                    c._yield(ts, ("join", tgt.name, caller), pred=lambda: tgt.status == "finished")
                 else:
-                    c._yield(ts, ("join-timed", tgt.name), voluntary=True, wake=c.now + max(0.0, timeout))
+                    c._yield(ts, ("join-timed", tgt.name, caller), voluntary=True,
+                             wake=c.now + max(0.0, timeout))
 
         self.Lock, self.RLock, self.Event, self.Thread = Lock, RLock, Event, Thread
 
